@@ -9,6 +9,7 @@ CONSTANTS
   TypeOf <- MCTypeOf2
   RootTypes <- MCRoot
   Edits <- MCEdits
+  EncToks <- MCEncQ
   HelperToks <- MCHelpersQ
   ImportToks <- MCImportsS
   CmtToks <- MCCmt
